@@ -65,7 +65,7 @@ def gen_cases(tier, seed):
 
 
 def run_case(case, tier):
-    rig = ManagerRig(stepped=True, timecode=bool(case.get("tc")))
+    rig = ManagerRig(stepped=True, timecode=bool(case.get("tc")), loud=(2 if case.get("n", 0) % 6 == 5 and max(max(iv["counts"]) for iv in case["ints"]) <= 255 else False))   # every sixth case: manager at DEBUG level, publishing its log messages
     try:
         sc = Scenario(rig, case["seed"])
         rng = random.Random(case["seed"])
@@ -74,6 +74,11 @@ def run_case(case, tier):
         st = [["open", "M"], ["hello", "M", {"mod_id": 11, "pid": 1111}]]
         for i, L in enumerate(pubs):
             st += [["open", L], ["hello", L, {"mod_id": 20 + i, "pid": 5000 + i}]]
+        nwq = case.get("n", 0) % 4 == 3
+        if nwq:
+            # a second receiver of the statistics that is reported not ready in the reporting rounds: the failure notices
+            # this produces are ordinary messages and belong into the next report
+            st += [["open", "Q"], ["hello", "Q", {"mod_id": 13, "pid": 1313}], ["drain"], ["sub", "Q", W.MT_TIMING], ["sub", "Q", W.MT_MESSAGE_TRAFFIC]]
         st += [["drain"], ["sub", "M", ALL], ["drain"]]
         for s in st:
             sc.issue(s) if s[0] not in ("drain", "round") else sc.drain()
@@ -88,7 +93,7 @@ def run_case(case, tier):
             # then. Every round of this harness therefore carries at least one request (control frames are not counted)
             if not any(c_.pending and c_.accepted and not c_.dropped for c_ in sc.cl.values()):
                 sc.issue(["sub", pubs[0], 777777])
-            rec = sc.round({"seed": rng.getrandbits(30), "adv": adv})
+            rec = sc.round({"seed": rng.getrandbits(30), "adv": adv, "nw": ["Q"] if (nwq and adv >= 0.9) else []})
             rclock[rec["n"]] = rig.clock
             snaps[round(rig.clock, 6)] = {m.mod_id: m.pid for m in sc.model.mods.values() if m.connected and m.mod_id}
 
@@ -269,7 +274,7 @@ def judge(sc, case, snaps, published, rclock):
             group["subs"].append(list(zip(types, counts)))
             group["subseq"].append(sub)
             continue
-        close_group()
+        # (a group stays open across other frames: failure notices about one sub-message arrive between the sub-messages)
         if not is_pub and f.msg_type == W.MT_TIMING and f.src_mod == 0 and len(f.payload) == W.TIMING_SIZE:
             seen_timing += 1
             timing = struct.unpack_from("<10000H", f.payload, 0)
@@ -315,6 +320,11 @@ def judge(sc, case, snaps, published, rclock):
     take("f", float("inf"), fcount)
     if stream_pub_total != harness_pub_total:
         V.append({"mech": "monitor_stream_incomplete", "detail": f"harness published {harness_pub_total}, monitor saw {stream_pub_total}"})
+    # failure notices about the very last reports arrive after them and have no later report to appear in
+    for cnt in (tcount, fcount):
+        if set(cnt) <= {W.MT_FAILED_MESSAGE} | set(W.MT_LOGS):   # (and the manager's own log lines about them)
+            C["notices_after_the_last_report"] = C.get("notices_after_the_last_report", 0) + sum(cnt.values())
+            cnt.clear()
     if tcount:
         V.append({"mech": "timing_never_reported", "detail": f"{sum(tcount.values())} messages after the last TIMING report although the clock passed the period"})
     if fcount:
